@@ -64,7 +64,7 @@ def run_case(ctx, index):
             from click.testing import CliRunner
             from biom.cli import cli
             args = ['convert', '-i', jp, '-o', path, '--to-hdf5']
-            if src.type:
+            if src.type in gen.TABLE_TYPES:
                 args += ['--table-type', src.type]
             rr = CliRunner().invoke(cli, args)
             os.remove(jp)
